@@ -213,11 +213,18 @@ def check(run, vm):
     for e in dr.blocks[end_b]['el']:
         if e['k'] == 'BinaryOperator' and e['op'] == '=' and dr.is_root(e['i']):
             dw.append(rren(dr.render(e)).replace(' ', ''))
-    if '(map=reg.map)' in cw and '(*map=reg.is)' in cw:
+    # the current slot is stored through the FINAL map position: the pointer is written back first, then the store goes through it
+    if '(map=reg.map)' in cw and '(*map=reg.is)' in cw and cw.index('(map=reg.map)') > cw.index('(*map=reg.is)'):
+        run.violated('DRIVERS', 'call epilogue', crun.where(), 'call-threaded Machine::run stores the current slot through the map pointer BEFORE writing the final map position back: '
+                     'the slot lands in the entry position and the final position is returned unwritten')
+    elif '(map=reg.map)' in cw and '(*map=reg.is)' in cw:
         run.held('DRIVERS', 'call epilogue', crun.where(), 'map = reg.map; *map = reg.is')
     else:
         run.violated('DRIVERS', 'call epilogue', crun.where(), 'call-threaded Machine::run does not write back map / *map = is: %s' % cw)
-    if '(__map=map)' in dw and '(*__map=is)' in dw:
+    if '(__map=map)' in dw and '(*__map=is)' in dw and dw.index('(__map=map)') > dw.index('(*__map=is)'):
+        run.violated('DRIVERS', 'direct epilogue', dr.where(), 'direct_run stores the current slot through __map BEFORE __map receives the final map position: the slot lands in the '
+                     'entry position and the final position is returned unwritten -- the two interpreter builds shape differently when an action ends without NEXT')
+    elif '(__map=map)' in dw and '(*__map=is)' in dw:
         run.held('DRIVERS', 'direct epilogue', dr.where(), '__map = map; *__map = is')
     else:
         run.violated('DRIVERS', 'direct epilogue', dr.where(), 'direct_run does not write back __map = map / *__map = is: %s' % dw)
